@@ -20,12 +20,13 @@ const ModulePath = "github.com/pion/rtp"
 
 // Program is the type-checked, SSA-built view of /repo's working tree.
 type Program struct {
-	Dir    string
-	Fset   *token.FileSet
-	Pkgs   []*packages.Package
-	SSA    *ssa.Program
-	ByPath map[string]*packages.Package
-	SPkgs  map[string]*ssa.Package
+	resolved map[string]*ssa.Function // renamed unexported anchors (see Func)
+	Dir      string
+	Fset     *token.FileSet
+	Pkgs     []*packages.Package
+	SSA      *ssa.Program
+	ByPath   map[string]*packages.Package
+	SPkgs    map[string]*ssa.Package
 	// Funcs: every source function of the module (incl. anonymous), by a stable name.
 	Funcs map[string]*ssa.Function
 	files map[*token.File]*ast.File
@@ -126,8 +127,88 @@ func FuncName(fn *ssa.Function) string {
 	return pkg + "." + fn.Name()
 }
 
-// Func looks a function up by FuncName; nil if absent.
-func (p *Program) Func(name string) *ssa.Function { return p.Funcs[name] }
+// AnchorHints: for an unexported anchor, a receiver field it stores into or a word of its result
+// type; used to tell renamed helpers apart. AnchorNames: every unexported anchor the rules know.
+var (
+	AnchorHints = map[string]string{}
+	AnchorNames = map[string]bool{}
+)
+
+// Func looks a function up by FuncName; nil if absent. An *unexported* function or method that is
+// not found under its pinned name is looked for among its unexported siblings (methods of the same
+// receiver, or functions of the same package) that no rule knows under another name: when exactly one
+// is left, or exactly one stores into the hinted field (returns the hinted type), a behaviour-preserving
+// rename is assumed and that sibling is used. Exported names are never guessed.
+func (p *Program) Func(name string) *ssa.Function {
+	if f := p.Funcs[name]; f != nil {
+		return f
+	}
+	dot := strings.LastIndex(name, ".")
+	if dot < 0 || dot+1 >= len(name) || name[dot+1] < 'a' || name[dot+1] > 'z' {
+		return nil
+	}
+	prefix := name[:dot+1]
+	if r, ok := p.resolved[name]; ok {
+		return r
+	}
+	var cands []*ssa.Function
+	var names []string
+	for n := range p.Funcs {
+		names = append(names, n)
+	}
+	sort.Strings(names)
+	for _, n := range names {
+		f := p.Funcs[n]
+		if !strings.HasPrefix(n, prefix) || strings.Contains(n[len(prefix):], ".") || strings.Contains(n[len(prefix):], "$") {
+			continue
+		}
+		last := n[len(prefix):]
+		if last == "" || last[0] < 'a' || last[0] > 'z' || AnchorNames[n] || len(f.Blocks) == 0 || last == "init" {
+			continue
+		}
+		cands = append(cands, f)
+	}
+	var pick *ssa.Function
+	if hint := AnchorHints[name]; hint != "" {
+		n := 0
+		for _, f := range cands {
+			if funcMentions(f, hint) {
+				pick = f
+				n++
+			}
+		}
+		if n != 1 {
+			pick = nil
+		}
+	} else if len(cands) == 1 {
+		pick = cands[0]
+	}
+	if p.resolved == nil {
+		p.resolved = map[string]*ssa.Function{}
+	}
+	p.resolved[name] = pick
+	return pick
+}
+
+// funcMentions: f stores into a field called hint, or a result type of f is called hint.
+func funcMentions(f *ssa.Function, hint string) bool {
+	res := f.Signature.Results()
+	for i := 0; i < res.Len(); i++ {
+		if strings.HasSuffix(res.At(i).Type().String(), "."+hint) {
+			return true
+		}
+	}
+	for _, b := range f.Blocks {
+		for _, in := range b.Instrs {
+			if st, ok := in.(*ssa.Store); ok {
+				if fa, ok := st.Addr.(*ssa.FieldAddr); ok && FieldName(fa) == hint {
+					return true
+				}
+			}
+		}
+	}
+	return false
+}
 
 // Method finds method `name` on named type pkg.typ (value or pointer receiver).
 func (p *Program) Method(pkgShort, typ, name string) *ssa.Function {
